@@ -22,7 +22,7 @@ const (
 type SeqOp struct {
 	K    string `json:"k"`              // put | sub | cache | release | close | default
 	Tag  int    `json:"tag,omitempty"`  // put: tag of the envelope
-	C    int    `json:"c,omitempty"`    // sub, close: consumer slot
+	C    int    `json:"c,omitempty"`    // sub: c-th free consumer slot; close: c-th subscribed consumer (mod their number)
 	Mask int    `json:"mask,omitempty"` // sub: predicate (set of accepted tags)
 	Slot int    `json:"slot,omitempty"` // cache, release: cache predicate handle
 	H    int    `json:"h,omitempty"`    // default: 0 = nil (logging handler), 1, 2 = recording handlers
@@ -36,9 +36,9 @@ type SeqCase struct {
 }
 
 var seqKinds = []string{
-	"put", "put", "put", "put", "put", "put", "put",
+	"put", "put", "put", "put", "put", "put", "put", "put",
 	"sub", "sub", "sub", "sub",
-	"cache", "cache",
+	"cache", "cache", "cache",
 	"release",
 	"close", "close",
 	"default",
@@ -67,7 +67,11 @@ func genSeqOp() *rapid.Generator[SeqOp] {
 func drawSeq(t *rapid.T) SeqCase {
 	var c SeqCase
 	c.CacheMasks = rapid.SliceOfN(genMask(3), seqCacheSlots, seqCacheSlots).Draw(t, "cache_masks")
-	c.Ops = rapid.SliceOfN(genSeqOp(), 1, 40).Draw(t, "ops")
+	// four segments: rapid's slices average ~5 elements, a history should
+	// average ~20 and still shrink by deleting single operations
+	for seg := 0; seg < 4; seg++ {
+		c.Ops = append(c.Ops, rapid.SliceOfN(genSeqOp(), 0, 12).Draw(t, fmt.Sprintf("ops%d", seg))...)
+	}
 	return c
 }
 
@@ -76,16 +80,16 @@ func drawSeq(t *rapid.T) SeqCase {
 // Destinations of the model: consumer objects 0.., then the two recording
 // default handlers and the final catch-all subscriber.
 type seqModel struct {
-	tags     []int         // tag of envelope id
-	subs     []seqSub      // current subscriptions
-	preds    map[int]bool  // enabled cache handles
-	masks    []int         // predicate of every cache handle
-	cached   []int         // ids kept in the cache, in arrival order
-	handler  int           // 0 = logging, 1, 2 = recording
-	expCons  [][]int       // expected ids per consumer object (ascending: ids grow)
-	expDef   [3][]int      // expected ids per default handler (index 0: logged, unobservable)
-	consMask []int         // predicate of consumer object
-	closedAt []int         // first envelope id put after the consumer was closed (-1 = open)
+	tags     []int        // tag of envelope id
+	subs     []seqSub     // current subscriptions
+	preds    map[int]bool // enabled cache handles
+	masks    []int        // predicate of every cache handle
+	cached   []int        // ids kept in the cache, in arrival order
+	handler  int          // 0 = logging, 1, 2 = recording
+	expCons  [][]int      // expected ids per consumer object (ascending: ids grow)
+	expDef   [3][]int     // expected ids per default handler (index 0: logged, unobservable)
+	consMask []int        // predicate of consumer object
+	closedAt []int        // first envelope id put after the consumer was closed (-1 = open)
 	stats    map[string]int
 }
 
@@ -182,8 +186,8 @@ func runSeqBody(c SeqCase, o *h.Outcome) *h.Failure {
 		cachePreds[i] = maskPred(m.masks[i])
 	}
 
-	var cons []*sink             // consumer objects
-	slotObj := [seqSlots]int{}   // slot -> subscribed object, -1 if none
+	var cons []*sink           // consumer objects
+	slotObj := [seqSlots]int{} // slot -> subscribed object, -1 if none
 	for i := range slotObj {
 		slotObj[i] = -1
 	}
@@ -246,15 +250,16 @@ func runSeqBody(c SeqCase, o *h.Outcome) *h.Failure {
 			relay.Put(mkEnv(id, tag, 0))
 			desc = fmt.Sprintf("put #%d tag %d", id, tag)
 		case "sub":
-			if op.C < 0 || op.C >= seqSlots || slotObj[op.C] >= 0 {
-				o.Class("op-skipped:sub-on-subscribed-slot")
+			slot := pickSlot(slotObj[:], op.C, false)
+			if slot < 0 {
+				o.Class("op-skipped:sub-without-free-slot")
 				continue
 			}
 			mask := op.Mask & allMask
 			obj, n := m.subscribe(mask)
 			s := &sink{}
 			cons = append(cons, s)
-			slotObj[op.C] = obj
+			slotObj[slot] = obj
 			if err := relay.Subscribe(s, maskPred(mask)); err != nil {
 				return h.Failf("seq/subscribe-error", "step %d: Subscribe of a fresh consumer on an open relay failed: %v", step, err)
 			}
@@ -264,12 +269,13 @@ func runSeqBody(c SeqCase, o *h.Outcome) *h.Failure {
 			}
 			desc = fmt.Sprintf("sub #%d mask %06b", obj, mask)
 		case "close":
-			if op.C < 0 || op.C >= seqSlots || slotObj[op.C] < 0 {
-				o.Class("op-skipped:close-on-empty-slot")
+			slot := pickSlot(slotObj[:], op.C, true)
+			if slot < 0 {
+				o.Class("op-skipped:close-without-consumer")
 				continue
 			}
-			obj := slotObj[op.C]
-			slotObj[op.C] = -1
+			obj := slotObj[slot]
+			slotObj[slot] = -1
 			m.unsubscribe(obj)
 			if err := cons[obj].Close(); err != nil {
 				return h.Failf("harness/close", "closing consumer: %v", err)
@@ -349,7 +355,11 @@ func runSeqBody(c SeqCase, o *h.Outcome) *h.Failure {
 		if len(missing) > 0 {
 			return h.Failf("seq/cache-lost", "envelopes %s (tags %v) that the model keeps in the cache did not reach a final catch-all subscriber", short(missing), tagsOf(m.tags, missing))
 		}
-		return h.Failf("seq/cache-extra", "final catch-all subscriber #%d received %s which the model does not keep in the cache", dobj, short(extra))
+		kind := "unexpected"
+		if countOf(wantDrain, extra[0]) > 0 {
+			kind = "duplicate"
+		}
+		return h.Failf("seq/cache-extra:"+kind, "final catch-all subscriber #%d received %s; the model keeps %s in the cache", dobj, short(extra), short(wantDrain))
 	}
 	if f := check(len(c.Ops), "final drain"); f != nil {
 		return f
@@ -373,6 +383,21 @@ func runSeqBody(c SeqCase, o *h.Outcome) *h.Failure {
 	}
 	o.Nontrivial = released > 0
 	return nil
+}
+
+// pickSlot returns the (c mod n)-th slot that is occupied (occupied=true) or
+// free (occupied=false), -1 if there is none.
+func pickSlot(slotObj []int, c int, occupied bool) int {
+	var cand []int
+	for i, obj := range slotObj {
+		if (obj >= 0) == occupied {
+			cand = append(cand, i)
+		}
+	}
+	if len(cand) == 0 || c < 0 {
+		return -1
+	}
+	return cand[c%len(cand)]
 }
 
 func countOf(sorted []int, v int) int {
@@ -400,7 +425,7 @@ func tagsOf(tags []int, ids []int) []int {
 	return out
 }
 
-const seqRule = "histories of 1-40 operations on one wire.Relay: put(envelope with tag 0-5) / subscribe(fresh recording consumer in one of 4 slots, predicate = subset of tags from a family of overlapping sets) / Cache(handle 0-2) / ReleaseCache(handle) / close(consumer) / SetDefaultMsgHandler(nil or one of 2 recorders); after every operation the harness waits until no relay goroutine is left and compares the multiset at every consumer (also closed ones) and default handler with a reference model written from the property text; at the end a catch-all subscriber must receive exactly the model's cache content and Close must report an empty cache. non-trivial = at least one envelope was cached and later handed to a subscriber; distinct by SHA-256 of the canonical case JSON"
+const seqRule = "histories of 0-48 operations (mean ~20) on one wire.Relay: put(envelope with tag 0-5) / subscribe(fresh recording consumer in one of 4 slots, predicate = subset of tags from a family of overlapping sets) / Cache(handle 0-2) / ReleaseCache(handle) / close(consumer) / SetDefaultMsgHandler(nil or one of 2 recorders); after every operation the harness waits until no relay goroutine is left and compares the multiset at every consumer (also closed ones) and default handler with a reference model written from the property text; at the end a catch-all subscriber must receive exactly the model's cache content and Close must report an empty cache. non-trivial = at least one envelope was cached and later handed to a subscriber; distinct by SHA-256 of the canonical case JSON"
 
 func TestSequential(t *testing.T) {
 	rec := h.Begin("C18", "seq")
